@@ -180,7 +180,7 @@ def search(ctx: Ctx) -> Result:
 
 
 SPEC = PropSpec(
-    prop='C03', translators=[], run=run, search=search,
+    prop='C03', translators=['deciderfrag'], run=run, search=search,
     rule='seeded (pattern set, stream of 3-12 data, assignment of stream positions to 2-3 instances, crash point, crashed proper subset, '
          'finished-run memory 0/1000) with loop/optional/negated/strict/singleton/history-dependent patterns over simple events, plus '
          'all splits and all crash points of short streams on the loop and halt pattern sets for 2 instances, plus a few hierarchical '
